@@ -74,7 +74,15 @@ def main():
             mod.run(ctx)
         except common.MachineryError:
             raise
-        except Exception:
+        except Exception as exc:
+            if isinstance(exc, MemoryError):
+                # give the verdict logic room to run: lift the limit that was hit, drop what the property module held
+                import gc
+                import resource
+                resource.setrlimit(resource.RLIMIT_AS, (resource.getrlimit(resource.RLIMIT_AS)[1],) * 2)
+                del exc
+                gc.collect()
+                ctx.disagree('resource-limit', {'what': 'driving the implementation exceeded VERIF_MEM_LIMIT_GB'})
             # The harness could not interpret what the implementation did (it raised while driving or observing
             # the real code).  On the unchanged tree this never happens; on a changed tree it means the
             # correspondence between model and code no longer checks.  It is reported as such - with whatever
